@@ -66,7 +66,7 @@ fn run(mode: SchedulingMode, sym: Sym) {
     let scores: [i32; N] = core::array::from_fn(|i| conns[i].get_score());
     let q0: [i32; N] = core::array::from_fn(|i| conns[i].batch_sender.queued_count());
 
-    kani::block_on(handle_srt_packet(Ok((n, client_addr())), &mut buf[..], &mut conns[..], &conn_io, &mut last_sel, &mut tracker, &mut client, true, &cfg, &cw));
+    poll_once(handle_srt_packet(Ok((n, client_addr())), &mut buf[..], &mut conns[..], &conn_io, &mut last_sel, &mut tracker, &mut client, true, &cfg, &cw));
 
     assert!(client == Some(client_addr()), "the client address is learned from the datagram");
     let grew: [i32; N] = core::array::from_fn(|i| conns[i].batch_sender.queued_count() - q0[i]);
